@@ -27,8 +27,10 @@ VERIF = vp.VERIF
 
 
 # ---------------------------------------------------------------- trace -> inputs
-def inputs_from_trace(trace):
-    """last value assigned to every scalar cell of every ghost input (globals named vp_in*)"""
+def inputs_from_trace(trace, stop_at=()):
+    """value of every scalar cell of every ghost input (globals named vp_in*) at the moment the function under
+    contract is entered: the last assignment BEFORE the first call of one of `stop_at` (the function itself may
+    update input arrays in place, e.g. the ghost file)"""
     vals = {}
     order = []
 
@@ -48,6 +50,10 @@ def inputs_from_trace(trace):
             order.append(lhs)
         vals[lhs] = {'binary': v['binary'], 'data': v.get('data'), 'type': v.get('type')}
     for st in trace or []:
+        if st.get('stepType') == 'function-call' and stop_at:
+            f = st.get('function', {})
+            if f.get('identifier') in stop_at or f.get('displayName') in stop_at:
+                break
         if st.get('stepType') != 'assignment':
             continue
         lhs = st.get('lhs', '')
@@ -381,7 +387,7 @@ def make_replay(prop, unit, chk, res, violation, rep, scratch):
     rdir = os.environ.get('VP_REPLAY_DIR') or os.path.join(VERIF, 'replay')
     os.makedirs(rdir, exist_ok=True)
     obl = violation.get('property', 'unknown')
-    inputs = inputs_from_trace(violation.get('trace'))
+    inputs = inputs_from_trace(violation.get('trace'), tuple(x for x in (chk.get('enforce'),) if x))
     safe = re.sub(r'[^A-Za-z0-9_.-]', '_', '%s-%s-%s-%s' % (prop, unit.name, res['check'], obl))
     path = os.path.join(rdir, safe + '.json')
     names = {}
